@@ -487,7 +487,7 @@ impl Property for C11Exec {
     fn attempts(&self, case: &ExecCase) -> u32 { if case.rt.paused() { 1 } else { 25 } }
     fn part(&self) -> &'static str { "executor-accounting" }
     fn strategy(&self, _tier: Tier) -> BoxedStrategy<ExecCase> { Self::strategy_impl() }
-    fn cases(&self, tier: Tier) -> u32 { match tier { Tier::Quick => 4_000, Tier::Thorough => 80_000 } }
+    fn cases(&self, tier: Tier) -> u32 { match tier { Tier::Quick => 16_000, Tier::Thorough => 160_000 } }
     fn run(&self, case: &ExecCase) -> RunReport { exec_report(case, "c11") }
     fn rule(&self) -> String {
         "generated: StreamExecutor::{spawn_executor | spawn_futures_executor | spawn_fallibles_executor | spawn_non_futures_executor | spawn_non_futures_non_fallibles_executor} x instruments {None, LogsWithoutMetrics, MetricsWithoutLogs, LogsWithMetrics, LogsWithExpensiveMetrics, Custom(COUNTERS), Custom(SATURATION), Custom(EXPENSIVE_PROFILING), Custom(LOG|CHEAP_PROFILING)} x futures timeout {off, on} x concurrency limit 1..8 x runtime {current_thread with the clock paused, multi_thread(2), multi_thread(4)} x 0..39 items over {ok, ok after k yields, ok once a gate opens, error, error after k yields, slow = never completes by itself (timeout on only)} (adapted to what the executor kind can express) x a source stream that answers Pending at generated polls x the instant the gate opens; \
@@ -503,7 +503,7 @@ impl Property for C12Exec {
     fn attempts(&self, case: &ExecCase) -> u32 { if case.rt.paused() { 1 } else { 25 } }
     fn part(&self) -> &'static str { "executor-lifecycle" }
     fn strategy(&self, _tier: Tier) -> BoxedStrategy<ExecCase> { C11Exec::strategy_impl() }
-    fn cases(&self, tier: Tier) -> u32 { match tier { Tier::Quick => 1_500, Tier::Thorough => 30_000 } }
+    fn cases(&self, tier: Tier) -> u32 { match tier { Tier::Quick => 8_000, Tier::Thorough => 80_000 } }
     fn run(&self, case: &ExecCase) -> RunReport {
         let mut r = exec_report(case, "c12");
         // out-of-order completion: an item that yields / waits next to one that does not, with limit > 1
